@@ -243,6 +243,28 @@ class World:
         self.flags: set = set()
 
 
+
+def _plain(v, depth=0):
+    """Canonical form of plain data reachable from the event-queue manager; non-data objects (weak proxies, regions) -> type name."""
+    if depth > 6:
+        return "..."
+    if v is None or isinstance(v, (bool, int, float, str, bytes)):
+        return v
+    if isinstance(v, dict):
+        return ("map",) + tuple((str(k), _plain(x, depth + 1)) for k, x in v.items())
+    if isinstance(v, (list, tuple)) or type(v).__name__ == "deque":
+        return ("seq",) + tuple(_plain(x, depth + 1) for x in v)
+    if hasattr(v, "_fields"):   # NamedTuple-like
+        return ("nt",) + tuple(_plain(x, depth + 1) for x in v)
+    import datetime as _dt
+    import uuid as _uuid
+    if isinstance(v, (_uuid.UUID, _dt.date, bytearray)):
+        return norm(v)
+    if hasattr(v, "__dict__") and type(v).__module__.startswith("hippolyzer") and type(v).__name__.startswith("_"):
+        return (type(v).__name__,) + tuple(sorted((k, _plain(x, depth + 1)) for k, x in vars(v).items()))
+    return type(v).__name__
+
+
 class Harness:
     copyable = False
 
@@ -312,7 +334,10 @@ class Harness:
         per_region = []
         for region, m in zip(w.eq_regions, w.rm):
             eq = region.eq_manager
-            per_region.append((tuple(norm(e) for e in eq._queued_events), eq._last_ack, norm(eq._last_payload),
+            # the manager's whole instance state, found via vars() (no private field named; weak back-references to the region
+            # and anything else that is not plain data are reduced to their type name)
+            eq_state = tuple(sorted((k, _plain(v)) for k, v in vars(eq).items()))
+            per_region.append((eq_state,
                                m.ack, (m.prev["ack"], m.prev["body"]) if m.prev else None, m.next_id, tuple(m.pending),
                                tuple(m.optional), m.inj_since_poll, m.torn_down))
         return (tuple(per_region), regions, g.inj_n, tuple((a, tuple(v)) for a, v in g.regions.items()),
